@@ -32,6 +32,11 @@ Proof. exact landscape_shape_refuted. Qed.
 Theorem C10_landscape_shape_partial : forall (z : Z) is_fsc, (0 <= z)%Z -> declared_len (inject_Z z) = actual_len is_fsc (inject_Z z) 1.
 Proof. exact landscape_shape_partial. Qed.
 
+(** the hypothesis "f is a function of the task" of C10_schedule_independent, for the task bodies of the alignment models:
+    syntactically, none of them changes its arguments, the cached template/mask or the shared model (generated fact) *)
+Theorem C10_tasks_are_functions : tasks_do_not_mutate_shared_state = true.
+Proof. reflexivity. Qed.
+
 Print Assumptions C10_cache_no_error.
 Print Assumptions C10_cache_value.
 Print Assumptions C10_cache_no_error_refuted_for_old_code.
